@@ -12,7 +12,7 @@ import jobs as registry  # noqa: E402
 TECH = 'CBMC code contracts on the real sources: %s'
 
 PROPS = {
-    'C01': ('proof', 'Frame (assigns) obligations and store-side pointer obligations on the real functions: unbounded for the 36 functions under loop contracts (strcpy_s, strncpy_s - disjoint and intersecting extents -, strcat_s, strncat_s, strnlen_s, wcsnlen_s, 7 classifiers, 6 searches/index comparisons, strcmp_s/strcasecmp_s/strcmpfld_s/strprefix_s, strspn_s/strcspn_s/strpbrk_s (nested loops), memcmp_s, 6 single-loop writers, bsearch_s, timingsafe_bcmp/memcmp) and the loop-free wrappers, bounded stand-ins (stated bound) for the rest.',
+    'C01': ('proof', 'Frame (assigns) obligations and store-side pointer obligations on the real functions: unbounded for the 37 functions under loop contracts (strcpy_s, strncpy_s - disjoint and intersecting extents -, strcat_s, strncat_s, strnlen_s, wcsnlen_s, 7 classifiers, 6 searches/index comparisons, strcmp_s/strcasecmp_s/strcmpfld_s/strprefix_s, strspn_s/strcspn_s/strpbrk_s (nested loops), memcmp_s, 6 single-loop writers, bsearch_s, timingsafe_bcmp/memcmp) and the loop-free wrappers, bounded stand-ins (stated bound) for the rest.',
             'assigns-clause frame checks + pointer checks under function contracts (loop contracts where closed, else bounded unwinding)'),
     'C02': ('proof', 'Load-side pointer obligations with exact-fit objects (every stray read is a named obligation), unterminated inputs included; unbounded where loop contracts close, bounded elsewhere.',
             'pointer-check obligations on exact-fit objects under function/loop contracts; bounded unwinding stand-ins'),
